@@ -37,7 +37,11 @@ def check(run):
                        "the universal statement about the composition of ALL passes is decided by exploration, not by proof (proved: the "
                        "idioms, the generic edit passes, fix_paragraphs, the breaking-return loop, fix_nesting and any sequence of those)"]
     src = core.snapshot()
-    run.check_proofs("C07", dirs=["C05", "C06"], gen=lambda: __import__("vt.gen.c06_api", fromlist=["x"]).generate(src))
+    def gen():          # coq/C07 imports coq/C06, whose generated files are git-ignored
+        __import__("vt.gen.c06_api", fromlist=["x"]).generate(src)
+        __import__("vt.gen.c06_nesting", fromlist=["x"]).generate(src)
+
+    run.check_proofs("C07", dirs=["C05", "C06"], gen=gen)
     exe = build()
     c05.monitor(run, "c07", [2], src, exe)
     run.coverage["exhaustive"] = False
